@@ -588,6 +588,13 @@ func (w *nodeWorld) exec1(it Item) {
 	case "adv":
 		w.advance(time.Duration(it.a(0)) * time.Millisecond)
 		return
+	case "adv-to-minute": // [offset ms] to the next whole minute of virtual time (sweep ticks of the time caches) plus or minus an offset
+		now := w.s.now()
+		target := (now/time.Minute+1)*time.Minute + time.Duration(it.a(0))*time.Millisecond
+		if target > now {
+			w.advance(target - now)
+		}
+		return
 	case "peer": // [idx, version, dir, ipgroup]
 		if w.fakes[int(it.a(0))] != nil {
 			return
